@@ -24,6 +24,7 @@ import (
 	"fmt"
 	"net"
 	"net/netip"
+	"reflect"
 	"sort"
 	"strconv"
 	"strings"
@@ -69,6 +70,60 @@ type naFrame struct {
 	tlla             []byte
 	override, router bool
 	hop              byte
+	raw              []byte
+}
+
+// refNA: independent reading of a forged neighbour advertisement on the wire (RFC 8200 header, RFC 4861 4.4
+// layout, RFC 4443 checksum with pseudo header): our MAC as Ethernet source and target link-layer address, hop
+// limit 255, IPv6 source = target address = the router's, flags = override only, checksum verifies.
+func refNA(b, hostMAC []byte, wantDst []netip.Addr) string {
+	if len(b) != 14+40+32 {
+		return fmt.Sprintf("length %d, expected 86", len(b))
+	}
+	ip, icmp := b[14:54], b[54:]
+	switch {
+	case string(b[6:12]) != string(hostMAC):
+		return "Ethernet source is not our MAC"
+	case ip[0]>>4 != 6 || binary.BigEndian.Uint16(ip[4:6]) != 32 || ip[6] != 58:
+		return "IPv6 header: version / payload length / next header"
+	case ip[7] != 255:
+		return fmt.Sprintf("hop limit %d", ip[7])
+	case string(ip[8:24]) != string(icmp[8:24]):
+		return "IPv6 source is not the router address being forged (= target address)"
+	case icmp[0] != 136 || icmp[1] != 0:
+		return "not type 136 code 0"
+	case icmp[4] != 0x20 || icmp[5] != 0 || icmp[6] != 0 || icmp[7] != 0:
+		return fmt.Sprintf("flags %02x%02x%02x%02x, expected override only (20000000)", icmp[4], icmp[5], icmp[6], icmp[7])
+	case icmp[24] != 2 || icmp[25] != 1 || string(icmp[26:32]) != string(hostMAC):
+		return "target link-layer address option is not our MAC"
+	}
+	dst := netip.AddrFrom16(*(*[16]byte)(ip[24:40]))
+	okDst := false
+	for _, w := range wantDst {
+		if w == dst {
+			okDst = true
+		}
+	}
+	if !okDst {
+		return fmt.Sprintf("IPv6 destination %s is neither the address StartHunt was given nor ff02::1 for an address-less target", dst)
+	}
+	// checksum over pseudo header + message
+	sum := uint32(0)
+	add := func(p []byte) {
+		for i := 0; i+1 < len(p); i += 2 {
+			sum += uint32(p[i])<<8 | uint32(p[i+1])
+		}
+	}
+	add(ip[8:40])
+	sum += 32 + 58
+	add(icmp)
+	for sum>>16 != 0 {
+		sum = sum&0xffff + sum>>16
+	}
+	if sum != 0xffff {
+		return "ICMPv6 checksum does not verify"
+	}
+	return ""
 }
 
 func (l *tlog) add(tok string) (int, time.Duration) {
@@ -150,11 +205,12 @@ func (c *lconn) WriteTo(b []byte, addr net.Addr) (int, error) {
 		if c.gate != nil {
 			c.gate.hold(f.dstMAC) // a slow link: the frame leaves when WriteTo returns
 		}
+		f.raw = append([]byte{}, b...)
 		l.mu.Lock()
 		f.at = time.Since(l.t0)
 		f.idx = len(l.evs)
 		t := f.target.As16()
-		l.evs = append(l.evs, event{"N" + hx(f.dstMAC) + ":" + hx(t[:]), f.at})
+		l.evs = append(l.evs, event{"N" + hx(f.dstMAC) + ":" + hx(t[:]) + ":" + hx(f.raw), f.at})
 		l.nas = append(l.nas, f)
 		l.mu.Unlock()
 	}
@@ -248,8 +304,18 @@ func hdrCanon(r icmp_spoofer.Router) string {
 		}
 		return "0"
 	}
-	return fmt.Sprintf("%d/%s/%s/%d/%d/%d/%d", r.CurHopLimit, b(r.ManagedFlag), b(r.OtherCondigFlag), r.Preference,
-		uint64(r.DefaultLifetime/time.Second), r.ReacheableTime, r.RetransTimer)
+	// Router.Prefixes must be the prefixes of the stored options (what StartRADVS re-advertises); Router.MTU and
+	// Router.RDNSS are only set for our own RADVS router: a learned router keeps them zero / nil
+	pfx := "P1"
+	if !reflect.DeepEqual(r.Prefixes, r.Options.Prefixes) && !(len(r.Prefixes) == 0 && len(r.Options.Prefixes) == 0) {
+		pfx = "P0"
+	}
+	rd := "R-"
+	if r.RDNSS != nil {
+		rd = "R+"
+	}
+	return fmt.Sprintf("%d/%s/%s/%d/%d/%d/%d/%s/M%d/%s", r.CurHopLimit, b(r.ManagedFlag), b(r.OtherCondigFlag), r.Preference,
+		uint64(r.DefaultLifetime/time.Second), r.ReacheableTime, r.RetransTimer, pfx, r.MTU, rd)
 }
 
 func routersCanon(h *icmp_spoofer.Handler6) (string, string) {
@@ -289,6 +355,7 @@ func evalRa(c *core.Ctx, line string) *core.Case {
 	var s *packet.Session
 	var h *icmp_spoofer.Handler6
 	res := ""
+	hostMismatch := ""
 	impl := "panic"
 	ndpgen.Quietly(func() {
 		impl = core.Safely(func() string {
@@ -301,7 +368,14 @@ func evalRa(c *core.Ctx, line string) *core.Case {
 				// only afterwards, so anything retained that aliases the packet shows up as garbage
 				buf := frame6(t.eth, netip.AddrFrom16(*(*[16]byte)(t.ip)), allNodes, t.payload)
 				fr, err := s.Parse(buf)
-				t.h = fr.Host != nil
+				// `pkt.Host != nil` is the host table's discovery rule on the sender, computed here from the frame
+				// (not read back from the implementation): own MAC never, link-local always, global unless sent by the router
+				src := netip.AddrFrom16(*(*[16]byte)(t.ip))
+				t.h = string(t.eth) != string(sess.HostMAC) &&
+					(src.IsLinkLocalUnicast() || (src.IsGlobalUnicast() && string(t.eth) != string(sess.RouterMAC)))
+				if err == nil && (fr.Host != nil) != t.h {
+					hostMismatch = fmt.Sprintf("Parse attached host=%v to the frame of an advertisement from %s (Ethernet source %s); the discovery rule says %v", fr.Host != nil, src, hx(t.eth), t.h)
+				}
 				if err == nil {
 					err = h.ProcessPacket(fr)
 				}
@@ -328,7 +402,12 @@ func evalRa(c *core.Ctx, line string) *core.Case {
 		Cmp: func(a, b string) bool {
 			return ndpgen.SameModuloPuny(strings.ReplaceAll(a, "|", " "), strings.ReplaceAll(b, "|", " "))
 		},
-		Oracle: func() (string, string) { return raOracle(toks, impl) }}
+		Oracle: func() (string, string) {
+			if hostMismatch != "" {
+				return hostMismatch, ""
+			}
+			return raOracle(toks, impl)
+		}}
 }
 
 // raOracle: the learned table against the independent reference decoder.
@@ -371,7 +450,7 @@ func raOracle(toks []raTok, impl string) (string, string) {
 			}
 			return "0"
 		}
-		hdr := fmt.Sprintf("%d/%s/%s/%d/%d/%d/%d", p[4], b(fl >= 128), b(fl/64%2 == 1), fl/8%4,
+		hdr := fmt.Sprintf("%d/%s/%s/%d/%d/%d/%d/P1/M0/R-", p[4], b(fl >= 128), b(fl/64%2 == 1), fl/8%4,
 			binary.BigEndian.Uint16(p[6:8]), binary.BigEndian.Uint32(p[8:12]), binary.BigEndian.Uint32(p[12:16]))
 		k := hx(t.ip)
 		e, found := tbl[k]
@@ -669,6 +748,20 @@ func traceOracle(evs []event, nas []naFrame, ops []*apiOp, hostMAC []byte) (stri
 		if string(f.tlla) != string(hostMAC) || string(f.srcMAC) != string(hostMAC) || !f.override || f.hop != 255 {
 			return fmt.Sprintf("forged NA malformed: tlla=%s src=%s override=%v hop=%d", hx(f.tlla), hx(f.srcMAC), f.override, f.hop), ""
 		}
+		// every field of the frame; destination = the address of an accepted StartHunt for this MAC (or ff02::1)
+		var wantDst []netip.Addr
+		for _, o := range ops {
+			if o.kind == 'S' && o.m == m && o.res == "h" && o.callIdx < f.idx {
+				if o.cls == 'l' {
+					wantDst = append(wantDst, addrOf(m, 'l').IP)
+				} else {
+					wantDst = append(wantDst, allNodes)
+				}
+			}
+		}
+		if w := refNA(f.raw, hostMAC, wantDst); w != "" {
+			return fmt.Sprintf("forged NA to %s for router %s is not the advertisement the property describes: %s", hx(f.dstMAC), f.target, w), ""
+		}
 	}
 	// 2b. rate: one loop per MAC writes one NA per router and cycle (>= 2 s) unless an RA / Close wakes it
 	for i, f := range nas {
@@ -716,7 +809,7 @@ func traceOracle(evs []event, nas []naFrame, ops []*apiOp, hostMAC []byte) (stri
 			routerAt = o.retAt
 		}
 	}
-	const maxGap = 4500 * time.Millisecond // cycle 2-2.8 s + generous slack for a loaded machine
+	const maxGap = 3900 * time.Millisecond // cycle 2-2.8 s + 1.1 s slack for a loaded machine
 	check := func(m int, a, b time.Duration) string {
 		if b > end {
 			b = end
@@ -781,7 +874,7 @@ func evalTrace(c *core.Ctx, line string) *core.Case {
 	for i, e := range evs {
 		toks[i] = fmt.Sprintf("%s@%d", e.tok, e.at.Milliseconds())
 	}
-	nl := "nd.trace scn=" + scn + " " + strings.Join(toks, " ")
+	nl := "nd.trace scn=" + scn + " host=" + hx(hostMAC) + " " + strings.Join(toks, " ")
 	if panicked != "" {
 		return &core.Case{Line: nl, Impl: "panic", Trivial: false,
 			Oracle: func() (string, string) { return "the ICMPv6 handler panicked: " + panicked, "" }}
@@ -1102,6 +1195,8 @@ func Gen(c *core.Ctx) {
 		"s0:l,r1:-1,w2500,x0:l", "r1:-1,s0:n,w300,x0:n", "s0:l,w300,r1:-1,w2600,c", "s0:4,s0:g,r1:-1,w500",
 		"s0:l,s0:l,s0:n,r1:-1,r2:-1,w2900,x0:g,w300,x0:l", "s0:l,s1:n,r1:0,w600,r1:-1,w400,x0:l,w2500,x1:n",
 		"r1:-1,s0:l,w100,x0:l,w50,s0:l,w2900,x0:l", "s0:l,r1:-1,c,w200,s1:l,r2:-1",
+		// several cycles while hunted (the periodic bound needs more than one cycle): LLA target and address-less target
+		"s0:l,r1:-1,w2900,w2900,w2900,x0:l", "r1:-1,r2:-1,s0:n,s1:l,w2900,w2900,w1500,x1:l,w2900,x0:n",
 		// StopHunt / Close called while a forged NA is held inside WriteTo: they return only after the batch
 		"s0:l,a0,r1:-1,b500,x0:l,w300", "s0:n,r1:-1,r2:-1,w200,a0,b500,c,w300", "s0:l,s1:n,r1:-1,r2:-1,a1,b400,x1:n,w200,a0,b400,x0:l",
 		"s0:l,a0,r1:-1,b300,x0:l,s0:l,w2500,x0:l",
